@@ -99,7 +99,7 @@ const char * vh_esc(const void * data, size_t len) {
 
 /* ------------------------------------------------------------ observations */
 #define MAX_COUNTERS 512
-static struct { char name[64]; uint64_t v; int required; } counters[MAX_COUNTERS];
+static struct { char name[112]; uint64_t v; int required; } counters[MAX_COUNTERS];
 static int ncounters;
 static uint64_t evals;
 static uint64_t nviol;
@@ -112,8 +112,9 @@ static const vh_phase_t * g_phases; static int g_nphases;
 static char case_desc[2048];
 static int out_fd = -1;
 
-static int counter_slot(const char * name) {
-    int i;
+static int counter_slot(const char * name_in) {
+    int i; char name[112];
+    snprintf(name, sizeof name, "%s", name_in); /* same truncation as the stored copy */
     for (i = 0; i < ncounters; i++) if (strcmp(counters[i].name, name) == 0) return i;
     if (ncounters >= MAX_COUNTERS) { fprintf(stderr, "vh: too many counters\n"); _exit(2); }
     snprintf(counters[ncounters].name, sizeof counters[ncounters].name, "%s", name);
@@ -185,7 +186,7 @@ void vh_violation(const char * key, const char * fmt, ...) {
     /* keep one line per key (first witness) plus a count */
     for (i = 0; i < nviol_lines; i++) {
         const char * k = strstr(viol_lines[i], " key=");
-        if (k) { k += 5; size_t kl = strcspn(k, " "); if (kl == strlen(key) && strncmp(k, key, kl) == 0) { char cn[80]; snprintf(cn, sizeof cn, "viol:%s", key); vh_count(cn, 1); return; } }
+        if (k) { k += 5; size_t kl = strcspn(k, " "); if (kl == strlen(key) && strncmp(k, key, kl) == 0) { char cn[112]; snprintf(cn, sizeof cn, "viol:%s", key); vh_count(cn, 1); return; } }
     }
     if (nviol_lines >= MAX_VIOL_LINES) return;
     va_start(ap, fmt); if (vasprintf(&msg, fmt, ap) < 0) msg = NULL; va_end(ap);
@@ -195,7 +196,7 @@ void vh_violation(const char * key, const char * fmt, ...) {
         viol_lines[nviol_lines++] = line;
         fprintf(stderr, "[%s shard %d] %s\n", vh_args.property, vh_args.shard, line);
     }
-    { char cn[80]; snprintf(cn, sizeof cn, "viol:%s", key); vh_count(cn, 1); }
+    { char cn[112]; snprintf(cn, sizeof cn, "viol:%s", key); vh_count(cn, 1); }
     free(msg);
 }
 uint64_t vh_violations(void) { return nviol; }
